@@ -1,6 +1,8 @@
 (* C03/Property.v — property theorems only. *)
 From Coq Require Import String List Bool.
-From Verif Require Import Base.Str C03.Model C03.Spec C03.Proofs C03.Corr.
+From Verif Require Import Base.Str Base.Py Base.Py2 C03.Model C03.Spec C03.Proofs C03.Corr C03.Source2.
+From VerifGen Require Import C03Src2.
+Import ListNotations.
 
 (* C03, soundness: for every metadata shape (certificates that do not load and KeyDescriptors without
    certificate included), claimed issuer, embedded KeyInfo, flag setting, message kind (enveloped / detached)
@@ -36,8 +38,44 @@ Theorem c03_unknown_issuer :
 Proof. exact unknown_issuer_rejected. Qed.
 Print Assumptions c03_unknown_issuer.
 
-(* the long-lived receiver: for every initial metadata and every interleaving of verifications, reloads
-   and failed reloads, each verification meets the full requirement against the metadata loaded by the last
+(* a message with several signed elements (a signed Response around a signed Assertion; the elements in the order
+   they are verified): it is accepted only if EVERY signature it carries was made by a key trusted for the issuer
+   named in the element it signs (one good signature never covers for another), per element the verifier is only
+   handed certificates trusted for that element, and it is accepted when all elements name one issuer that
+   publishes every signing key.  For every list of signed elements (the flag paired with an element: the receiver's
+   configuration insists on that signature -- it only decides whether a failed verification is repeated). *)
+Theorem c03_message :
+  forall (key cert msg sig : Type) (cert_of : key -> cert) (sign : key -> msg -> sig) (verify : cert -> msg -> sig -> bool)
+         (readable blank : cert -> bool),
+    (forall c mm ss, verify c mm ss = true <-> exists k, c = cert_of k /\ ss = sign k mm) ->
+    (forall k k' mm, sign k mm = sign k' mm -> k = k') ->
+    (forall c mm ss, verify c mm ss = true -> readable c = true) ->
+    forall xs : list (bool * input cert msg sig),
+      msg_spec cert_of sign blank (map snd xs) (accept_msg verify readable blank xs).
+Proof. exact message_trust. Qed.
+Print Assumptions c03_message.
+
+(* soundness of messages needs no assumption beyond ideal signatures *)
+Theorem c03_message_sound :
+  forall (key cert msg sig : Type) (cert_of : key -> cert) (sign : key -> msg -> sig) (verify : cert -> msg -> sig -> bool)
+         (readable blank : cert -> bool),
+    (forall c mm ss, verify c mm ss = true <-> exists k, c = cert_of k /\ ss = sign k mm) ->
+    (forall k k' mm, sign k mm = sign k' mm -> k = k') ->
+    forall xs : list (bool * input cert msg sig),
+      msg_sound cert_of sign blank (map snd xs) (accept_msg verify readable blank xs).
+Proof. exact accept_msg_sound. Qed.
+Print Assumptions c03_message_sound.
+
+(* with one signed element the message requirement IS the per-signature requirement of c03_trust *)
+Theorem c03_message_single :
+  forall (key cert msg sig : Type) (cert_of : key -> cert) (sign : key -> msg -> sig) (blank : cert -> bool)
+         (x : input cert msg sig) (b : bool) (h : list cert),
+    msg_spec cert_of sign blank [x] (b, [h]) <-> spec cert_of sign blank x (b, h).
+Proof. exact msg_spec_single. Qed.
+Print Assumptions c03_message_single.
+
+(* the long-lived receiver: for every initial metadata and every interleaving of messages, reloads
+   and failed reloads, each message meets the full requirement against the metadata loaded by the last
    successful (re)load before it *)
 Theorem c03_receiver :
   forall (key cert msg sig : Type) (cert_of : key -> cert) (sign : key -> msg -> sig) (verify : cert -> msg -> sig -> bool)
@@ -46,23 +84,25 @@ Theorem c03_receiver :
     (forall k k' mm, sign k mm = sign k' mm -> k = k') ->
     (forall c mm ss, verify c mm ss = true -> readable c = true) ->
     forall (ops : list (op cert msg sig)) (init : metadata cert) (only : bool),
-      seq_spec (spec cert_of sign blank) init only ops (run_ops verify readable blank init only ops).
+      seq_spec (msg_spec cert_of sign blank) init only ops (run_ops verify readable blank init only ops).
 Proof. exact receiver_trust. Qed.
 Print Assumptions c03_receiver.
 
-(* a key withdrawn by a reload stops validating at once, whatever was verified before the reload *)
+(* a key withdrawn by a reload stops validating at once, whatever was verified before the reload and whatever
+   other (good) signatures the message carries *)
 Theorem c03_withdrawn_key :
   forall (key cert msg sig : Type) (cert_of : key -> cert) (sign : key -> msg -> sig) (verify : cert -> msg -> sig -> bool)
          (readable blank : cert -> bool),
     (forall c mm ss, verify c mm ss = true <-> exists k, c = cert_of k /\ ss = sign k mm) ->
     (forall k k' mm, sign k mm = sign k' mm -> k = k') ->
-    forall (pre : list (op cert msg sig)) (mdx : metadata cert) (post : list (op cert msg sig)) (q : query cert msg sig)
+    forall (pre : list (op cert msg sig)) (mdx : metadata cert) (post : list (op cert msg sig))
+           (qs : list (query cert msg sig)) (q : query cert msg sig)
            (k : key) (e : string) (init : metadata cert) (only : bool),
-      q_s q = sign k (q_m q) -> q_claimed q = Some e -> only = true ->
+      In q qs -> q_s q = sign k (q_m q) -> q_claimed q = Some e -> only = true ->
       ~ published_for_signing blank mdx e (cert_of k) ->
-      nth_error (run_ops verify readable blank init only (pre ++ Reload mdx :: Check q :: post)) (nchecks pre) =
-        Some (accept verify readable blank (at_md mdx only q))
-      /\ fst (accept verify readable blank (at_md mdx only q)) = false.
+      nth_error (run_ops verify readable blank init only (pre ++ Reload mdx :: Check qs :: post)) (nchecks pre) =
+        Some (accept_msg verify readable blank (map (fun q => (q_insist q, at_md mdx only q)) qs))
+      /\ fst (accept_msg verify readable blank (map (fun q => (q_insist q, at_md mdx only q)) qs)) = false.
 Proof. exact withdrawn_key_rejected. Qed.
 Print Assumptions c03_withdrawn_key.
 
@@ -110,7 +150,148 @@ Theorem c03_spec_reflect : forall x out, spec_b x out = true <-> spec icert_of i
 Proof. exact spec_b_iff. Qed.
 Print Assumptions c03_spec_reflect.
 
+Theorem c03_message_reflect : forall xs out, msg_spec_b xs out = true <-> msg_spec icert_of isign iblank xs out.
+Proof. exact msg_spec_b_iff. Qed.
+Print Assumptions c03_message_reflect.
+
 Theorem c03_holds_reflect :
-  forall c, holds c = true <-> seq_spec (spec icert_of isign iblank) (c_md c) (c_only c) (c_ops c) (c_outs c).
+  forall c, holds c = true <-> seq_spec (msg_spec icert_of isign iblank) (c_md c) (c_only c) (c_ops c) (c_outs c).
 Proof. exact holds_iff. Qed.
 Print Assumptions c03_holds_reflect.
+
+(* ---- source tie, translator v2: coq/gen/C03Src2.v is re-translated from the CURRENT source text on every run;
+   each theorem: the translated function on the encoding of the model's input = the encoding of the model's
+   answer, for all inputs (external calls are the quantified functions with their hypotheses) ---- *)
+Open Scope string_scope.
+
+(* MetaData.certs.extract_certs: the KeyDescriptor use filter <-> flat_map Model.extract_signing *)
+Theorem c03_source2_extract_certs :
+  forall (rp : string -> string) (repack : pyval -> pyval),
+    (forall t : string, repack (PStr t) = PStr (rp t)) ->
+    forall roles : list (list (keydesc kcert)),
+      forallb (forallb kd_ok) roles = true ->
+      src2_extract_certs repack (PStr "signing") (PList (map enc_role roles)) =
+      PList (map (enc_out rp) (flat_map (extract_signing kblank) roles)).
+Proof. exact src2_extract_certs_is_model. Qed.
+Print Assumptions c03_source2_extract_certs.
+
+(* MetaData.certs, lookup of the entity + walk over its role descriptors <-> Model.signing_certs *)
+Theorem c03_source2_certs_outer :
+  forall (rp : string -> string) (repack : pyval -> pyval),
+    (forall t : string, repack (PStr t) = PStr (rp t)) ->
+    forall (mdx : list (string * edict)) (e : string),
+      keys_ok mdx = true ->
+      forallb (fun ex : string * edict => edict_ok (snd ex)) mdx = true ->
+      src2_certs_outer repack (enc_md mdx) (PStr e) (PStr "any") (PStr "signing") =
+      match lookup_md e (to_model mdx) with
+      | Some _ => PList (map (enc_out rp) (signing_certs kblank (to_model mdx) (Some e)))
+      | None => PExc "KeyError"
+      end.
+Proof. exact src2_certs_outer_is_model. Qed.
+Print Assumptions c03_source2_certs_outer.
+
+(* SecurityContext._check_signature, certificate selection <-> Model.candidates, MissingKey *)
+Theorem c03_source2_select :
+  forall (cert msg sig : Type) (blank : cert -> bool) (cert_text : cert -> string) (pemf namef : string -> string)
+         (md_certs pem mk_temp instance_certs : pyval -> pyval),
+    (forall t : string, pem (PStr t) = PStr (pemf t)) ->
+    (forall p : string, mk_temp (PStr p) = PObj [("__class__", PStr "TempFile"); ("name", PStr (namef p))]) ->
+    forall x : input cert msg sig,
+      detached x = false ->
+      (forall e : string, claimed x = Some e -> strip e = e /\ end_ascii e = true) ->
+      (forall e : string,
+         md_certs (PStr e) =
+         match lookup_md e (md x) with
+         | Some _ => PList (map (enc_mdpair cert cert_text) (signing_certs blank (md x) (Some e)))
+         | None => PExc "KeyError"
+         end) ->
+      md_certs PNone = PExc "KeyError" ->
+      instance_certs (enc_signed_item cert msg sig x) = PList (map (fun c : cert => PStr (cert_text c)) (embedded x)) ->
+      src2_select md_certs pem mk_temp instance_certs (enc_sec (only_md x)) (enc_signed_item cert msg sig x) PNone =
+      match candidates blank x with
+      | [] => PExc "MissingKey"
+      | cs => PList (map (enc_tmpfile cert cert_text pemf namef) cs)
+      end.
+Proof. exact src2_select_is_model. Qed.
+Print Assumptions c03_source2_select.
+
+(* SecurityContext._check_signature, verification loop <-> fst . Model.try_certs *)
+Theorem c03_source2_verify_loop :
+  forall (cert msg sig : Type) (verify : cert -> msg -> sig -> bool) (readable : cert -> bool) (mm : msg) (ss : sig),
+    (forall c : cert, readable c = false -> verify c mm ss = false) ->
+    forall enc_name : cert -> pyval,
+      (forall c : cert, is_bad (enc_name c) = false) ->
+      forall xmlv nodev idv : pyval,
+        is_bad xmlv = false -> is_bad nodev = false -> is_bad idv = false ->
+        forall verify_sig : pyval -> pyval -> pyval -> pyval -> pyval,
+          (forall c : cert,
+             verify_sig xmlv (enc_name c) nodev idv = (if readable c then PBool (verify c mm ss) else PExc "XmlsecError")) ->
+          forall verify_cert : pyval -> pyval,
+            (forall c : cert, verify_cert (enc_name c) = PBool true) ->
+            forall (self : pyval) (cs : list cert),
+              src2_verify_loop verify_sig verify_cert self xmlv (enc_item idv) nodev
+                (PList (map (enc_tmp cert enc_name) cs)) (PBool false)
+              = (if fst (try_certs verify cs mm ss) then enc_item idv else PExc "SignatureError").
+Proof. exact src2_verify_loop_is_model. Qed.
+Print Assumptions c03_source2_verify_loop.
+
+(* Request._do_redirect_sig_check <-> fst . Model.accept on a detached signature (try_detached over signing_certs) *)
+Theorem c03_source2_redirect_sig_check :
+  forall (cert msg sig : Type) (verify : cert -> msg -> sig -> bool) (readable blank : cert -> bool)
+         (enc_cert : cert -> pyval),
+    (forall c : cert, is_bad (enc_cert c) = false) ->
+    forall (mdx : metadata cert) (mm : msg) (ss : sig) (msgv : pyval),
+      is_bad msgv = false ->
+      forall (sender md_certs : pyval -> pyval) (verify_sig : pyval -> pyval -> pyval),
+        (forall e : string,
+           md_certs (PStr e) =
+           match lookup_md e mdx with
+           | Some _ => PList (map (enc_pair cert enc_cert) (signing_certs blank mdx (Some e)))
+           | None => PExc "KeyError"
+           end) ->
+        (forall c : cert, verify_sig msgv (enc_cert c) = (if readable c then PBool (verify c mm ss) else PExc "ValueError")) ->
+        forall (e : string) (only : bool) (emb : list cert),
+          sender enc_request = PStr e ->
+          src2_redirect_sig_check sender md_certs verify_sig enc_request msgv =
+          match lookup_md e mdx with
+          | Some _ => PBool (fst (accept verify readable blank (Build_input mdx only (Some e) emb true mm ss)))
+          | None => PExc "KeyError"
+          end.
+Proof. exact src2_redirect_sig_check_is_model. Qed.
+Print Assumptions c03_source2_redirect_sig_check.
+
+(* AuthnResponse._assertion, the signature step <-> fst . Model.accept for one signed element *)
+Theorem c03_source2_assertion_sig :
+  forall (cert msg sig : Type) (verify : cert -> msg -> sig -> bool) (readable blank : cert -> bool)
+         (enc_id : input cert msg sig -> pyval) (node xml : string) (check_sig : pyval -> pyval -> pyval -> pyval),
+    (forall x : input cert msg sig,
+       check_sig (enc_assertion cert msg sig enc_id node true x) (PStr node) (PStr xml) =
+       (if fst (accept verify readable blank x) then enc_assertion cert msg sig enc_id node true x else PExc (exc_of blank x))) ->
+    forall (rs : bool) (x : input cert msg sig) (verified : bool),
+      src2_assertion_sig check_sig (enc_authn_response xml rs) (enc_assertion cert msg sig enc_id node true x) (PBool verified) =
+      (if verified then PBool true else if fst (accept verify readable blank x) then PBool true else PExc (exc_of blank x)).
+Proof. exact src2_assertion_sig_is_model. Qed.
+Print Assumptions c03_source2_assertion_sig.
+
+Theorem c03_source2_assertion_sig_unsigned :
+  forall (cert msg sig : Type) (enc_id : input cert msg sig -> pyval) (node xml : string)
+         (check_sig : pyval -> pyval -> pyval -> pyval) (rs : bool) (x : input cert msg sig) (v : pyval),
+    src2_assertion_sig check_sig (enc_authn_response xml rs) (enc_assertion cert msg sig enc_id node false x) v =
+    (if rs then PExc "SignatureError" else PBool true).
+Proof. exact src2_assertion_sig_unsigned. Qed.
+Print Assumptions c03_source2_assertion_sig_unsigned.
+
+(* AuthnResponse.parse_assertion, the plain assertions <-> fst . Model.accept_parts *)
+Theorem c03_source2_plain_assertions :
+  forall (cert msg sig : Type) (verify : cert -> msg -> sig -> bool) (readable blank : cert -> bool)
+         (enc_part : bool * input cert msg sig -> pyval),
+    (forall p : bool * input cert msg sig, is_bad (enc_part p) = false) ->
+    forall assertion_ok : pyval -> pyval -> pyval,
+      (forall p : bool * input cert msg sig,
+         assertion_ok (enc_part p) (PBool false) =
+         (if fst (accept verify readable blank (snd p)) then PBool true else PExc "SignatureError")) ->
+      forall (ps : list (bool * input cert msg sig)) (keys : pyval),
+        src2_plain_assertions assertion_ok (enc_response_self cert msg sig enc_part ps) keys =
+        (if fst (accept_parts verify readable blank ps) then PBool true else PExc "SignatureError").
+Proof. exact src2_plain_assertions_is_model. Qed.
+Print Assumptions c03_source2_plain_assertions.
